@@ -184,8 +184,13 @@ func (repo *StoragePeerRepository) Load(ctx context.Context) error {
 		return errors.Wrap(err, "Failed to read peers count")
 	}
 
-	// Reset
-	repo.list = make(PeerList, 0, count)
+	// Reset. The stored count is only a capacity hint, so don't trust it beyond what the
+	// remaining data can hold (each peer takes at least 12 bytes).
+	capacity := int(count)
+	if capacity < 0 || capacity > buffer.Len()/12 {
+		capacity = buffer.Len() / 12
+	}
+	repo.list = make(PeerList, 0, capacity)
 
 	// Parse peers
 	for {
@@ -261,6 +266,13 @@ func readPeer(r io.Reader, version uint8) (Peer, error) {
 	var addressSize int32
 	if err := binary.Read(r, binary.LittleEndian, &addressSize); err != nil {
 		return result, err
+	}
+
+	if addressSize < 0 {
+		return result, errors.New("Negative address size")
+	}
+	if lr, ok := r.(interface{ Len() int }); ok && int(addressSize) > lr.Len() {
+		return result, io.ErrUnexpectedEOF // not that much data left
 	}
 
 	addressData := make([]byte, addressSize)
